@@ -87,6 +87,7 @@ def run(repo: Repo, L: Ledger, tier: str):
     L.rule("R3", "chunk_end − chunk_start + 1 ≤ buffer_size; gap chunk ≤ buffer_size; one chunk per yield")
     L.rule("R4", "writer: bounded reads of the current chunk only; nothing accumulates")
     L.rule("R5", "CLI does not reach whole-record readers; sequence_bytes called only by the chunkers")
+    L.rule("R6", "where a flush falls does not matter: the residue counter changes outside the flush only with the buffer empty (shared with C04.R4)")
 
     idx = repo.try_func("index_fasta_file", "tola.fasta.index")
     if idx is None:
@@ -94,6 +95,29 @@ def run(repo: Repo, L: Ledger, tier: str):
     proc = idx.nested.get("process_seq_buffer")
     if proc is None:
         raise AnalysisError("anchor process_seq_buffer vanished")
+    # ---- R6 (structural half of "byte-identical for every buffer size" on the indexing side)
+    from . import c04 as _c04
+
+    store_ = idx.nested.get("store_info")
+    if store_ is None:
+        raise AnalysisError("anchor index_fasta_file.store_info vanished")
+
+    class _Relabel:
+        """the shared rule reports under its C04 id; here it is C13.R6"""
+
+        def __init__(self, led):
+            self._l = led
+
+        def fail(self, rule, *a, **k):
+            return self._l.fail("R6", *a, **k)
+
+        def ok(self, rule, *a, **k):
+            return self._l.ok("R6", *a, **k)
+
+        def __getattr__(self, nm):
+            return getattr(self._l, nm)
+
+    _c04._r4_counter(repo, _Relabel(L), idx, proc, _c04._roles(repo, idx, store_, proc))
 
     # ---- R1
     handles = []
